@@ -96,9 +96,14 @@ def fullGC (s : St) (fails : List Path) : St :=
            managed := s.managed.filter (fun p => !deleted.contains p),
            pending := none, deleted := deleted, failed := toDel.filter (fun p => fails.contains p) }
 
+/-- first occurrences only -/
+def dedup : List Path → List Path
+  | [] => []
+  | a :: l => a :: (dedup l).filter (· != a)
+
 /-- the same collection as small steps -/
 def fullGCSteps (s : St) (fails : List Path) : List Ev :=
-  let toDel := (s.managed.filter (fun p => !(living s).contains p)).eraseDups
+  let toDel := dedup (s.managed.filter (fun p => !(living s).contains p))
   [Ev.gcCompute] ++ toDel.map (fun p => Ev.gcDelete p (!fails.contains p)) ++ [Ev.gcFinish]
 
 /-- GC state a fresh process starts from after a crash left `img`: the inventory holds exactly
@@ -147,5 +152,131 @@ def RegDisc : Dir → List Op → Prop
 
 /-- every file that may survive a crash is listed by the newest `.managed.json` -/
 def RInv (s : Dir) : Prop := ∀ p, (s.file p).mayPresent = true → p ∈ visibleManaged s
+
+
+/-! ## fine-grained collection, the two locks, and a loading reader
+
+`garbage_collect` is not one step: it takes the managed-paths read lock and META_LOCK, calls the
+living-files callback, selects, releases both locks and only then deletes. A reader
+(`IndexReader::open_segment_readers`) takes META_LOCK, lists the segments of `meta.json`, opens
+their files, releases. `FSt` adds the locks, the living snapshot, the files of the current
+`meta.json` and the reader's list to `St`. Whether the living snapshot is taken under the locks
+(`gcUnder`) and whether the reader lists under the lock (`rdUnder`) are parameters: they are
+extracted from the source (`Gen.GC_STEP_ORDER`, `Gen.READER_STEP_ORDER`). -/
+
+structure FSt where
+  base : St
+  gcLocked : Bool := false          -- managed read lock + META_LOCK held by the collection
+  snap : Option (List Path) := none -- living files as returned by the callback
+  rdLocked : Bool := false          -- META_LOCK held by the reader
+  metaFiles : List Path := []       -- files of the segments listed in meta.json
+  rlist : Option (List Path) := none -- what the reader read from meta.json
+deriving Repr, Inhabited, DecidableEq
+
+inductive FEv
+  | track (fs : List Path)
+  | drop (i : Nat)
+  | openWrite (p : Path)            -- needs the managed write lock
+  | publish (fs : List Path)        -- save_metas: meta.json now lists segments with files `fs`
+  | gLock | gLiving | gSelect | gUnlock
+  | gDelete (p : Path) (ok : Bool) | gFinish
+  | rLock | rList | rOpen (p : Path) | rUnlock
+deriving Repr, Inhabited, DecidableEq
+
+def FSt.step (s : FSt) : FEv → FSt
+  | .track fs => { s with base := s.base.step (.track fs) }
+  | .drop i => { s with base := s.base.step (.drop i) }
+  | .openWrite p => { s with base := s.base.step (.openWrite p) }
+  | .publish fs => { s with metaFiles := fs }
+  | .gLock => { s with gcLocked := true }
+  | .gLiving => { s with snap := some (living s.base) }
+  | .gSelect =>
+    { s with base := { s.base with
+        pending := some (s.base.managed.filter (fun p => !(s.snap.getD []).contains p)), deleted := [], failed := [] } }
+  | .gUnlock => { s with gcLocked := false, snap := none }
+  | .gDelete p ok => { s with base := s.base.step (.gcDelete p ok) }
+  | .gFinish => { s with base := s.base.step .gcFinish }
+  | .rLock => { s with rdLocked := true }
+  | .rList => { s with rlist := some s.metaFiles }
+  | .rOpen _ => s
+  | .rUnlock => { s with rdLocked := false, rlist := none }
+
+def FSt.run (s : FSt) (evs : List FEv) : FSt := evs.foldl FSt.step s
+
+/-- what each thread may do when. `gcUnder`: the living callback runs only while the locks are
+held; `rdUnder`: the reader reads meta.json only while it holds META_LOCK.
+Lock semantics: the managed write lock (openWrite) excludes the collection's read lock;
+META_LOCK is exclusive between collection and reader.
+Writer discipline: registration-before-create, no resurrection (as in `okEv`), a published
+meta.json lists only existing files of live metas, and a meta is dropped only if meta.json's
+files stay protected (publish first, then drop). -/
+def okF (gcUnder rdUnder : Bool) (s : FSt) : FEv → Bool
+  | .track fs => okEv s.base (.track fs)
+  | .drop i => s.metaFiles.all (fun p => (living (s.base.step (.drop i))).contains p)
+  | .openWrite p => okEv s.base (.openWrite p) && !s.gcLocked
+  | .publish fs => fs.all (fun p => (living s.base).contains p && s.base.dir.contains p)
+  | .gLock => !s.gcLocked && !s.rdLocked && s.base.pending.isNone && (!gcUnder || s.snap.isNone)
+  | .gLiving => (!gcUnder || s.gcLocked) && s.base.pending.isNone
+  | .gSelect => s.gcLocked && s.snap.isSome && s.base.pending.isNone
+  | .gUnlock => s.gcLocked
+  | .gDelete p ok => !s.gcLocked && okEv s.base (.gcDelete p ok)
+  | .gFinish => !s.gcLocked
+  | .rLock => !s.gcLocked && !s.rdLocked
+  | .rList => (!rdUnder || s.rdLocked)
+  | .rOpen p => s.rdLocked && (s.rlist.getD []).contains p
+  | .rUnlock => s.rdLocked
+
+def FDisc (g r : Bool) : FSt → List FEv → Bool
+  | _, [] => true
+  | s, e :: es => okF g r s e && FDisc g r (s.step e) es
+
+/-- along the run: no delete hits a needed file, and every file the reader opens exists -/
+def FSafe : FSt → List FEv → Prop
+  | _, [] => True
+  | s, e :: es =>
+    (match e with
+      | .gDelete p _ => p ∉ needed s.base
+      | .rOpen p => p ∈ s.base.dir
+      | _ => True) ∧ FSafe (s.step e) es
+
+/-! ### guards decided on the extracted step orders -/
+
+def stepBefore (o : List Nat) (a b : Nat) : Bool :=
+  match o.findIdx? (· == a), o.findIdx? (· == b) with
+  | some i, some j => decide (i < j)
+  | _, _ => false
+
+/-- the living-files callback runs after both locks are taken and before the selection, and the
+deletes come after the selection  -- decided on `Gen.GC_STEP_ORDER` -/
+def gcLivingUnderLocks (o : List Nat) : Bool :=
+  stepBefore o 1 3 && stepBefore o 2 3 && stepBefore o 3 4 && stepBefore o 4 6
+
+/-- the managed list is rewritten only after the deletes and a directory sync (rule R2) -/
+def gcSyncBeforeForget (o : List Nat) : Bool := stepBefore o 6 8 && stepBefore o 8 9
+
+/-- the reader takes META_LOCK before it reads meta.json and opens the files after that -/
+def readerListsUnderLock (o : List Nat) : Bool := stepBefore o 1 2 && stepBefore o 2 3
+
+/-- the commit drops emptied segments from the committed register before it lists the metas -/
+def dropsEmptyBeforeListing (o : List Nat) : Bool := stepBefore o 1 2
+
+/-! ### the committed register at a commit -/
+
+structure SegEntry where
+  files : List Path
+  numDocs : Nat
+deriving Repr, Inhabited, DecidableEq
+
+/-- `committed_segment_metas`: (register afterwards, metas that go into meta.json)
+-- mirrors: src/indexer/segment_manager.rs::committed_segment_metas / remove_empty_segments -/
+def committedMetas (dropEmpty : Bool) (reg : List SegEntry) : List SegEntry × List SegEntry :=
+  let listed := reg.filter (fun e => decide (0 < e.numDocs))
+  (if dropEmpty then listed else reg, listed)
+
+/-- `ManagedDirectory::open_write` as storage operations, in the extracted order of its two steps
+(1 = register_file_as_managed: `.managed.json` rewritten with `p` added, 2 = create the file)
+-- mirrors: src/directory/managed_directory.rs::open_write -/
+def managedOpenWriteOps (order : List Nat) (mg : Payload) (p : Path) : List Op :=
+  order.filterMap (fun c => if c = 1 then some (Op.atomicWrite MANAGED mg) else if c = 2 then some (Op.create p) else none)
 
 end TantivyModel.GC
